@@ -35,12 +35,17 @@ STUBS = ["none"]
 ASSUMES = ["md5/sha1 collision freedom on the universe"]
 OUTSIDE = ["another interpreter process / hash seed", "engineered digest collisions"]
 
+_NAN = float("nan")       # one object: the rebuilt containers are equal (identity short-cut of ==)
+
 ORDER_UNIVERSES = {
     "ints": [0, 8, 16, 24],                 # collide modulo the table size: iteration follows insertion
     "strs": ["a", "b", "ab", "ba"],
     "mixed_orderable": [0, 8, 1.5, -3],
     "tuples": [(0, 8), (8, 0), (16,), ()],
     "frozensets": [frozenset([0, 8]), frozenset([8, 16]), frozenset(), frozenset([16])],
+    # partial orders hidden one level down: sorted() does not raise on these, its result depends on the input order
+    "tuples_of_frozensets": [(1, frozenset([0])), (1, frozenset([8])), (1, frozenset([0, 8])), (0, frozenset([16]))],
+    "floats_with_nan": [_NAN, 1.0, 2.0, 0.5],
 }
 
 
